@@ -5,7 +5,7 @@ use crate::transaction::{ActionID, MIDGenerator};
 use crate::{
     message::{FindNodeRequest, Message, MessageBody, Request},
     socket::Socket,
-    timer::Timer,
+    timer::{Timeout, Timer},
 };
 use std::{
     sync::{Arc, Mutex},
@@ -19,6 +19,8 @@ pub(crate) struct TableRefresh {
     table: Arc<Mutex<RoutingTable>>,
     id_generator: MIDGenerator,
     curr_refresh_bucket: usize,
+    // The timeout of the next scheduled refresh round (if any).
+    next_refresh: Option<Timeout>,
 }
 
 impl TableRefresh {
@@ -27,6 +29,7 @@ impl TableRefresh {
             table,
             id_generator,
             curr_refresh_bucket: 0,
+            next_refresh: None,
         }
     }
 
@@ -41,6 +44,12 @@ impl TableRefresh {
     ) {
         #[cfg(btdht_verif)]
         crate::verif::count_refresh_round(socket.local_addr());
+
+        // This function is invoked both by its own timer and on every (re)bootstrap completion.
+        // Cancel the pending timeout so that there is always at most one refresh chain running.
+        if let Some(timeout) = self.next_refresh.take() {
+            timer.cancel(timeout);
+        }
 
         if self.curr_refresh_bucket == table::MAX_BUCKETS {
             self.curr_refresh_bucket = 0;
@@ -105,7 +114,8 @@ impl TableRefresh {
         }
 
         // Start a timer for the next refresh
-        timer.schedule_in(REFRESH_INTERVAL_TIMEOUT, ScheduledTaskCheck::TableRefresh);
+        self.next_refresh =
+            Some(timer.schedule_in(REFRESH_INTERVAL_TIMEOUT, ScheduledTaskCheck::TableRefresh));
 
         self.curr_refresh_bucket += 1;
     }
